@@ -143,6 +143,10 @@ OBSERVERS = {
     'linear_smiles_hash': lambda m: sorted(m.linear_smiles_hash(1, 3).items()),
     'stereo_sets': lambda m: [sorted(m.chiral_tetrahedrons), sorted(m.chiral_cis_trans), sorted(m.chiral_allenes)],
     'labels': lambda m: [(n, a.implicit_hydrogens, a.hybridization, sorted(a.ring_sizes), a.stereo) for n, a in m.atoms()],
+    # the object the input path (SMILES / MDL / MRV parser) built: numbering, storage and neighbour order, per-atom state, bond labels
+    'layout': lambda m: [[(n, a.atomic_number, a.isotope, a.charge, a.is_radical, a.implicit_hydrogens, round(a.x, 4), round(a.y, 4),
+                           list(m._bonds[n])) for n, a in m.atoms()],
+                         [(n, k, b.order, b.stereo, bool(b.in_ring)) for n, k, b in m.bonds()], m.name],
     'automorphism': lambda m: [sorted(x.items()) for _, x in zip(range(5), m.get_automorphism_mapping())],
     'self_sub': lambda m: (lambda q: None if q is None else [sorted(x.items()) for _, x in zip(range(20), q.get_mapping(m))])(_sub_query(m)),
     'self_sub_all': lambda m: (lambda q: None if q is None else [sorted(x.items()) for _, x in zip(range(20), q.get_mapping(m, automorphism_filter=False))])(_sub_query(m)),
